@@ -1,10 +1,10 @@
 /-
   Property C09 — joining and structural extraction.  Property theorems only.
 -/
-import SparseV.Lemmas.Rewrite
-import SparseV.Model.Join
+import SparseV.Lemmas.Join
 namespace SparseV.C09
 open SparseV SparseV.COO
+variable {α : Type}
 
 /-- **triu_get.** `triu(x, k)` keeps exactly the elements with `i + k ≤ j` (last two axes) and is
 zero elsewhere, for every rank ≥ 2, every `k`, every pattern. No `Nodup`/order assumption. -/
@@ -48,5 +48,343 @@ theorem triu_sorted (x : COO Int) (k : Int) (h : x.keys.Pairwise (· < ·)) :
 /-- non-vacuity -/
 example : ((⟨[2, 2], [([0, 0], 1), ([0, 1], 2), ([1, 0], 3), ([1, 1], 4)], 0⟩ : COO Int).triuCore 1).entries
     = [([0, 1], 2)] := by decide
+
+
+/-- **concat_get.** `concatenate(x0 :: rest, axis)` for ANY number of members (members without stored
+entries and members of extent 0 along `axis` included), any rank, any `axis < rank`, both code paths
+(`axis = 0`: `sorted=True` promised, no sort; `axis ≠ 0`: the constructor sorts).  Members are
+well-formed with distinct stored indices, agree with `x0` off `axis` (`shape.set axis 0` equal) and on
+the fill value (what `concatenate` validates).  Then: the result shape is `x0.shape` with extent
+`Σ extents` along `axis`, the fill is `x0.fill`, and every in-bounds result index `j` reads member
+`k` at `j` with `j[axis] - offset_k`, where `(k, j[axis] - offset_k) = locate extents j[axis]` is the
+member whose range `[offset_k, offset_k + extent_k)` contains `j[axis]` (`locate_spec`,
+`locate_unique`); that source index is in bounds of member `k`. -/
+theorem concat_get (x0 : COO α) (rest : List (COO α)) (axis : Nat)
+    (hwf : ∀ y ∈ x0 :: rest, y.WF) (hnd : ∀ y ∈ x0 :: rest, (keysOf y.entries).Nodup)
+    (hax : axis < x0.shape.length)
+    (hshape : ∀ y ∈ rest, y.shape.set axis 0 = x0.shape.set axis 0)
+    (hfill : ∀ y ∈ rest, y.fill = x0.fill) :
+    (concatCore x0 rest axis).shape = x0.shape.set axis (exts (x0 :: rest) axis).sum ∧
+    (concatCore x0 rest axis).fill = x0.fill ∧
+    ∀ j, InB j (x0.shape.set axis (exts (x0 :: rest) axis).sum) →
+      (locate (exts (x0 :: rest) axis) (j.getD axis 0)).1 < (x0 :: rest).length ∧
+      InB (j.set axis (locate (exts (x0 :: rest) axis) (j.getD axis 0)).2)
+        ((x0 :: rest).getD (locate (exts (x0 :: rest) axis) (j.getD axis 0)).1 x0).shape ∧
+      (concatCore x0 rest axis).get j =
+        ((x0 :: rest).getD (locate (exts (x0 :: rest) axis) (j.getD axis 0)).1 x0).get
+          (j.set axis (locate (exts (x0 :: rest) axis) (j.getD axis 0)).2) := by
+  have hshape' : ∀ y ∈ x0 :: rest, y.shape.set axis 0 = x0.shape.set axis 0 := by
+    intro y hy
+    rcases List.mem_cons.mp hy with h | h
+    · rw [h]
+    · exact hshape y h
+  have hfill' : ∀ y ∈ x0 :: rest, y.fill = x0.fill := by
+    intro y hy
+    rcases List.mem_cons.mp hy with h | h
+    · rw [h]
+    · exact hfill y h
+  have hrank : ∀ y ∈ x0 :: rest, axis < y.shape.length := by
+    intro y hy
+    have := congrArg List.length (hshape' y hy)
+    simp only [List.length_set] at this
+    omega
+  have hsnd : (concatCore.go axis (x0 :: rest) 0).2 = (exts (x0 :: rest) axis).sum := by
+    rw [concat_go_snd]; omega
+  refine ⟨?_, ?_, ?_⟩
+  · simp only [concatCore, hsnd]
+  · simp only [concatCore]
+  · intro j hj
+    have hjl : axis < j.length := by rw [InB_length hj]; simpa using hax
+    have hjax : j.getD axis 0 < (exts (x0 :: rest) axis).sum := by
+      have := InB_getD_lt hj (a := axis) (by simpa using hax)
+      rwa [getD_set_eq _ _ _ hax] at this
+    obtain ⟨hk, hp, _⟩ := locate_spec _ _ hjax
+    have hklen : (locate (exts (x0 :: rest) axis) (j.getD axis 0)).1 < (x0 :: rest).length := by
+      simpa [exts] using hk
+    have hp' : (locate (exts (x0 :: rest) axis) (j.getD axis 0)).2 <
+        ((x0 :: rest).getD (locate (exts (x0 :: rest) axis) (j.getD axis 0)).1 x0).shape.getD axis 0 := by
+      rw [← map_getD (fun y : COO α => y.shape.getD axis 0) (x0 :: rest) _ x0 hklen]
+      exact hp
+    have hget : (concatCore x0 rest axis).get j =
+        lookup ((x0 :: rest).getD (locate (exts (x0 :: rest) axis) (j.getD axis 0)).1 x0).entries x0.fill
+          (j.set axis (locate (exts (x0 :: rest) axis) (j.getD axis 0)).2) := by
+      have hgo := concat_go_lookup axis x0 (x0 :: rest) 0 x0.fill j hwf hrank (Nat.zero_le _) (by omega)
+      simp only [Nat.sub_zero] at hgo
+      simp only [concatCore, COO.get]
+      by_cases h0 : axis = 0
+      · simp only [h0, if_true] at hgo ⊢
+        exact hgo
+      · simp only [h0, if_false]
+        rw [lookup_sortEntries _ _ _ _ (concat_go_nodup axis (x0 :: rest) 0 hwf hrank hnd)]
+        exact hgo
+    clear hp
+    generalize hkk : (locate (exts (x0 :: rest) axis) (j.getD axis 0)).1 = k at *
+    generalize hpp : (locate (exts (x0 :: rest) axis) (j.getD axis 0)).2 = p at *
+    have hmem : (x0 :: rest).getD k x0 ∈ x0 :: rest := by
+      rw [List.getD_eq_getElem?_getD, List.getElem?_eq_getElem hklen]
+      exact List.getElem_mem hklen
+    generalize (x0 :: rest).getD k x0 = y at *
+    refine ⟨hklen, ?_, ?_⟩
+    · -- the source index is inside the member
+      have hys := hshape' y hmem
+      rw [InB_iff_getD] at hj ⊢
+      have hyl : y.shape.length = x0.shape.length := by
+        have := congrArg List.length hys
+        simpa using this
+      refine ⟨by simp only [List.length_set]; rw [hj.1]; simp [hyl], fun a ha => ?_⟩
+      by_cases haa : a = axis
+      · subst haa
+        rw [getD_set_eq _ _ _ hjl]
+        exact hp'
+      · have h1 := hj.2 a (by simp only [List.length_set]; omega)
+        rw [getD_set_ne _ _ _ _ (Ne.symm haa)] at h1 ⊢
+        have := congrArg (fun l => List.getD l a 0) hys
+        simp only [getD_set_ne _ _ _ _ (Ne.symm haa)] at this
+        omega
+    · rw [hget, COO.get, hfill' y hmem]
+
+
+/-- **concat_axis0_sorted.** For `axis = 0` `concatenate` passes `sorted=True` and the constructor does
+not sort.  The promise is justified: if every member's entries are in canonical order (strictly
+increasing linear location in the member's own shape), so is the concatenated entry list in the
+result shape. -/
+theorem concat_axis0_sorted (x0 : COO α) (rest : List (COO α))
+    (hwf : ∀ y ∈ x0 :: rest, y.WF) (hax : 0 < x0.shape.length)
+    (hshape : ∀ y ∈ rest, y.shape.set 0 0 = x0.shape.set 0 0)
+    (hs : ∀ y ∈ x0 :: rest, SortedLin y.shape y.entries) :
+    SortedLin (concatCore x0 rest 0).shape (concatCore x0 rest 0).entries := by
+  match hx : x0.shape, hax with
+  | d0 :: ds, _ =>
+    have hsh : ∀ y ∈ x0 :: rest, ∃ dy, y.shape = dy :: ds := by
+      intro y hy
+      rcases List.mem_cons.mp hy with h | h
+      · exact ⟨d0, by rw [h, hx]⟩
+      · have := hshape y h
+        rw [hx] at this
+        match hys : y.shape with
+        | [] => rw [hys] at this; simp at this
+        | dy :: t =>
+          rw [hys] at this
+          simp only [List.set_cons_zero, List.cons.injEq, true_and] at this
+          exact ⟨dy, by rw [this]⟩
+    simp only [concatCore, if_true, hx, List.set_cons_zero]
+    exact (concat_go_sorted0 ds _ (x0 :: rest) 0 hwf hsh hs).1
+
+/-- **stack_get.** `stack(x0 :: rest, axis)` for any number `m = rest.length + 1` of members of equal
+shape and fill, any `axis ≤ rank` (both code paths: `axis = 0` unsorted promise, otherwise sorted):
+shape `insertAt x0.shape axis m`, fill `x0.fill`, and element `insertAt i axis k` (member number `k`
+inserted at position `axis` of `i`) of the result is element `i` of member `k`.
+`stack_index_form` shows every in-bounds result index has this form. -/
+theorem stack_get (x0 : COO α) (rest : List (COO α)) (axis : Nat)
+    (hwf : ∀ y ∈ x0 :: rest, y.WF) (hnd : ∀ y ∈ x0 :: rest, (keysOf y.entries).Nodup)
+    (hax : axis ≤ x0.shape.length)
+    (hshape : ∀ y ∈ rest, y.shape = x0.shape)
+    (hfill : ∀ y ∈ rest, y.fill = x0.fill) :
+    (stackCore x0 rest axis).shape = insertAt x0.shape axis (rest.length + 1) ∧
+    (stackCore x0 rest axis).fill = x0.fill ∧
+    ∀ (k : Nat) (i : Idx), k < rest.length + 1 → InB i x0.shape →
+      InB (insertAt i axis k) (stackCore x0 rest axis).shape ∧
+      (stackCore x0 rest axis).get (insertAt i axis k) = ((x0 :: rest).getD k x0).get i := by
+  have hshape' : ∀ y ∈ x0 :: rest, y.shape = x0.shape := by
+    intro y hy
+    rcases List.mem_cons.mp hy with h | h
+    · rw [h]
+    · exact hshape y h
+  have hfill' : ∀ y ∈ x0 :: rest, y.fill = x0.fill := by
+    intro y hy
+    rcases List.mem_cons.mp hy with h | h
+    · rw [h]
+    · exact hfill y h
+  have hlen : ∀ y ∈ x0 :: rest, ∀ e ∈ y.entries, axis ≤ e.1.length := by
+    intro y hy e he
+    rw [InB_length (hwf y hy e he), hshape' y hy]
+    exact hax
+  have hes : ((List.zip (List.range (x0 :: rest).length) (x0 :: rest)).flatMap fun p =>
+      mapIdx (fun i => insertAt i axis p.1) p.2.entries) = stackGo axis 0 (x0 :: rest) := by
+    rw [stackGo, List.range_eq_range']
+  refine ⟨by simp [stackCore], by simp [stackCore], ?_⟩
+  intro k i hk hi
+  have hil : axis ≤ i.length := by rw [InB_length hi]; exact hax
+  refine ⟨?_, ?_⟩
+  · simp only [stackCore, List.length_cons]
+    exact (InB_insertAt i x0.shape axis k _ hax).mpr ⟨hk, hi⟩
+  · have hgo := stackGo_lookup axis x0 (x0 :: rest) 0 x0.fill i k hlen hil (Nat.zero_le _)
+      (by simp only [List.length_cons]; omega)
+    have hmem : (x0 :: rest).getD k x0 ∈ x0 :: rest := by
+      have hk' : k < (x0 :: rest).length := by simpa using hk
+      rw [List.getD_eq_getElem?_getD, List.getElem?_eq_getElem hk']
+      exact List.getElem_mem hk'
+    simp only [Nat.sub_zero] at hgo
+    rw [COO.get, COO.get, hfill' _ hmem, ← hgo]
+    simp only [stackCore]
+    rw [hes]
+    by_cases h0 : axis = 0
+    · simp only [h0, if_true]
+    · simp only [h0, if_false]
+      exact lookup_sortEntries _ _ _ _ (stackGo_nodup axis (x0 :: rest) 0 hlen hnd)
+
+/-- every in-bounds index of the stacked array is of the form used in `stack_get` -/
+theorem stack_index_form (s : List Nat) (axis m : Nat) (hax : axis ≤ s.length) (j : Idx)
+    (hj : InB j (insertAt s axis m)) :
+    j = insertAt (j.eraseIdx axis) axis (j.getD axis 0) ∧ j.getD axis 0 < m ∧ InB (j.eraseIdx axis) s := by
+  have hl : axis < j.length := by
+    rw [InB_length hj]; simp [insertAt]; omega
+  have h1 := (insertAt_eraseIdx j axis hl).symm
+  refine ⟨h1, ?_⟩
+  rw [h1] at hj
+  exact (InB_insertAt _ s axis _ m hax).mp hj
+
+
+
+/-- **diagonal_get.** `diagonal(x, offset, axis1, axis2)` for every rank ≥ 2, every offset (positive,
+zero, negative, beyond the extent), both orders of the two axes: the result has the other axes in
+order followed by an axis of length `max(d - |offset|, 0)`; the fill is unchanged; the in-bounds
+result element `j = others ++ [t]` reads the operand element `diagSrc … j`, whose coordinates are
+`axis1 ↦ t + max(-offset, 0)`, `axis2 ↦ t + max(offset, 0)`, kept axis number `m` ↦ `j[m]`
+(`diagSrc_spec`), and which is in bounds.  The constructor's sort and duplicate-summing passes are
+covered (`lookup_build_distinct`: they do nothing to distinct in-bounds keys). -/
+theorem diagonal_get [Add α] [DecidableEq α] (x : COO α) (offset : Int) (a1 a2 d : Nat)
+    (hwf : x.WF) (hnd : (keysOf x.entries).Nodup) (hne : a1 ≠ a2)
+    (h1 : a1 < x.shape.length) (h2 : a2 < x.shape.length)
+    (hd1 : x.shape.getD a1 0 = d) (hd2 : x.shape.getD a2 0 = d) :
+    (x.diagonalCore offset a1 a2).shape
+      = gather x.shape (diagOthers x.shape.length a1 a2) ++ [((d : Int) - (offset.natAbs : Int)).toNat] ∧
+    (x.diagonalCore offset a1 a2).fill = x.fill ∧
+    ∀ j, InB j (gather x.shape (diagOthers x.shape.length a1 a2) ++ [((d : Int) - (offset.natAbs : Int)).toNat]) →
+      InB (diagSrc x.shape.length a1 a2 offset j) x.shape ∧
+      (x.diagonalCore offset a1 a2).get j = x.get (diagSrc x.shape.length a1 a2 offset j) := by
+  have hpos : x.shape.getD (if offset ≥ 0 then a1 else a2) 0 = d := by
+    by_cases ho : offset ≥ 0 <;> simp only [ho, if_true, if_false, hd1, hd2]
+  have hshape : (gather x.shape (diagAxes x.shape.length a1 a2 offset)).set ((gather x.shape (diagAxes x.shape.length a1 a2 offset)).length - 1)
+      (((gather x.shape (diagAxes x.shape.length a1 a2 offset)).getD ((gather x.shape (diagAxes x.shape.length a1 a2 offset)).length - 1) 0 : Int)
+        - (offset.natAbs : Int)).toNat
+      = gather x.shape (diagOthers x.shape.length a1 a2) ++ [((d : Int) - (offset.natAbs : Int)).toNat] := by
+    have hl : (gather x.shape (diagAxes x.shape.length a1 a2 offset)).length - 1 = (gather x.shape (diagOthers x.shape.length a1 a2)).length := by
+      simp [gather, diagAxes]
+    rw [hl]
+    rw [diagAxes, gather_append]
+    rw [List.set_append_right _ _ (Nat.le_refl _)]
+    simp [gather, List.getD_eq_getElem?_getD] at hpos ⊢
+    rw [hpos]
+  have hcore : x.diagonalCore offset a1 a2 = COO.build
+      ((gather x.shape (diagAxes x.shape.length a1 a2 offset)).set ((gather x.shape (diagAxes x.shape.length a1 a2 offset)).length - 1)
+      (((gather x.shape (diagAxes x.shape.length a1 a2 offset)).getD ((gather x.shape (diagAxes x.shape.length a1 a2 offset)).length - 1) 0 : Int)
+        - (offset.natAbs : Int)).toNat)
+      (mapIdx (gather · (diagAxes x.shape.length a1 a2 offset))
+        (x.entries.filter fun e => decide ((e.1.getD a1 0 : Int) + offset = (e.1.getD a2 0 : Int)))) x.fill := rfl
+  rw [hcore, hshape]
+  refine ⟨rfl, rfl, ?_⟩
+  intro j hj
+  have hjl : j.length = (diagOthers x.shape.length a1 a2).length + 1 := by
+    rw [InB_length hj]; simp [gather]
+  have hjt : (j.getD (diagOthers x.shape.length a1 a2).length 0 : Int) < (d : Int) - (offset.natAbs : Int) := by
+    have := InB_getD_lt hj (a := (gather x.shape (diagOthers x.shape.length a1 a2)).length) (by simp)
+    rw [getD_append_last, gather_length] at this
+    omega
+  have hsrc : InB (diagSrc x.shape.length a1 a2 offset j) x.shape := by
+    rw [InB_iff_getD]
+    refine ⟨diagSrc_length _ _ _ _ _, fun a ha => ?_⟩
+    by_cases ha1 : a = a1
+    · subst ha1; rw [diagSrc_a1 _ _ _ _ _ h1, hd1]; omega
+    · by_cases ha2 : a = a2
+      · subst ha2; rw [diagSrc_a2 _ _ _ _ _ h2 hne, hd2]; omega
+      · have hm : a ∈ diagOthers x.shape.length a1 a2 := mem_diagOthers.mpr ⟨ha, ha1, ha2⟩
+        have hlt := List.idxOf_lt_length_of_mem hm
+        have := diagSrc_other x.shape.length a1 a2 offset j _ hlt
+        rw [List.getElem_idxOf hlt] at this
+        rw [this]
+        have hb := InB_getD_lt hj (a := (diagOthers x.shape.length a1 a2).idxOf a) (by simp [gather]; omega)
+        rw [List.getD_eq_getElem?_getD (l := _ ++ _), List.getElem?_append_left (by simpa [gather] using hlt)] at hb
+        rw [← List.getD_eq_getElem?_getD, gather_getD _ _ _ hlt] at hb
+        rw [List.getD_eq_getElem?_getD (l := diagOthers _ _ _), List.getElem?_eq_getElem hlt, Option.getD_some,
+          List.getElem_idxOf hlt] at hb
+        exact hb
+  refine ⟨hsrc, ?_⟩
+  -- the selected entries and their rewritten keys
+  have hselnd : (keysOf (x.entries.filter fun e => decide ((e.1.getD a1 0 : Int) + offset = (e.1.getD a2 0 : Int)))).Nodup :=
+    List.Nodup.sublist (List.Sublist.map _ List.filter_sublist) hnd
+  have hinv : ∀ e ∈ x.entries.filter (fun e => decide ((e.1.getD a1 0 : Int) + offset = (e.1.getD a2 0 : Int))),
+      ∀ j', (fun i => some (gather i (diagAxes x.shape.length a1 a2 offset))) e.1 = some j' →
+        diagSrc x.shape.length a1 a2 offset j' = e.1 := by
+    intro e he j' hg
+    simp only [Option.some.injEq] at hg
+    subst hg
+    obtain ⟨hex, hP⟩ := List.mem_filter.mp he
+    exact diagSrc_gather _ _ _ _ _ (InB_length (hwf e hex)) h1 h2 (by simpa using hP)
+  rw [lookup_build_distinct]
+  · rw [mapIdx_eq_rewrite, rewrite_lookup _ _ _ (diagSrc x.shape.length a1 a2 offset) j hinv
+      (by simp only [gather_diagSrc _ _ _ _ j hjl h1 h2 hne])]
+    have := lookup_filter (fun i => decide ((i.getD a1 0 : Int) + offset = (i.getD a2 0 : Int))) x.entries x.fill
+      (diagSrc x.shape.length a1 a2 offset j)
+    rw [this, if_pos (by simp only [decide_eq_true_eq]; exact diagSrc_sel _ _ _ offset j h1 h2 hne)]
+    rfl
+  · rw [mapIdx_eq_rewrite]
+    exact rewrite_nodup _ _ _ hinv hselnd
+  · intro e he
+    obtain ⟨e0, he0, rfl⟩ := List.mem_map.mp he
+    obtain ⟨hex, hP⟩ := List.mem_filter.mp he0
+    have hin := hwf e0 hex
+    simp only [decide_eq_true_eq] at hP
+    show InB (gather e0.1 (diagAxes x.shape.length a1 a2 offset)) _
+    rw [diagAxes, gather_append, InB_append _ _ _ _ (by simp [gather])]
+    refine ⟨InB_gather _ _ hin _ (fun a ha => (mem_diagOthers.mp ha).1), ?_⟩
+    have b1 := InB_getD_lt hin h1
+    have b2 := InB_getD_lt hin h2
+    simp only [gather, List.map_cons, List.map_nil, InB_cons, InB_nil, and_true]
+    by_cases ho : offset ≥ 0
+    · simp only [ho, if_true]; omega
+    · simp only [ho, if_false]; omega
+
+/-- the coordinates of the operand index read by `diagonal` (see `diagonal_get`) -/
+theorem diagSrc_spec (n a1 a2 : Nat) (offset : Int) (o : Idx) (t : Nat)
+    (ho : o.length = (diagOthers n a1 a2).length) (h1 : a1 < n) (h2 : a2 < n) (hne : a1 ≠ a2) :
+    (diagSrc n a1 a2 offset (o ++ [t])).length = n ∧
+    (diagSrc n a1 a2 offset (o ++ [t])).getD a1 0 = t + (-offset).toNat ∧
+    (diagSrc n a1 a2 offset (o ++ [t])).getD a2 0 = t + offset.toNat ∧
+    ∀ k (hk : k < (diagOthers n a1 a2).length),
+      (diagSrc n a1 a2 offset (o ++ [t])).getD ((diagOthers n a1 a2)[k]) 0 = o.getD k 0 := by
+  have ht : (o ++ [t]).getD (diagOthers n a1 a2).length 0 = t := by rw [← ho]; exact getD_append_last o t
+  refine ⟨diagSrc_length _ _ _ _ _, ?_, ?_, fun k hk => ?_⟩
+  · rw [diagSrc_a1 _ _ _ _ _ h1, ht]
+  · rw [diagSrc_a2 _ _ _ _ _ h2 hne, ht]
+  · rw [diagSrc_other _ _ _ _ _ k hk]
+    simp [List.getD_eq_getElem?_getD, List.getElem?_append_left (ho ▸ hk)]
+
+/-! non-vacuity: the hypotheses hold on concrete members and the conclusions give concrete reads -/
+
+def cA : COO Int := { shape := [2, 2], entries := [([0, 1], 5), ([1, 0], 7)], fill := 0 }
+def cE : COO Int := { shape := [2, 0], entries := [], fill := 0 }
+def cB : COO Int := { shape := [2, 3], entries := [([0, 2], 3), ([1, 1], 4)], fill := 0 }
+
+/-- three members along axis 1, the middle one of extent 0: result index `[1, 3]` reads `cB[1, 1]` -/
+example : (concatCore cA [cE, cB] 1).shape = [2, 5] ∧ (concatCore cA [cE, cB] 1).get [1, 3] = cB.get [1, 1] :=
+  have h := concat_get cA [cE, cB] 1 (by decide) (by decide) (by decide) (by decide) (by decide)
+  ⟨h.1, ((h.2.2 [1, 3] (by decide)).2.2)⟩
+
+def cC : COO Int := { shape := [1, 2], entries := [([0, 0], 9)], fill := 0 }
+
+/-- axis 0 (unsorted path) and its order promise -/
+example : (concatCore cA [cC] 0).get [2, 0] = cC.get [0, 0] ∧
+    SortedLin (concatCore cA [cC] 0).shape (concatCore cA [cC] 0).entries :=
+  ⟨((concat_get cA [cC] 0 (by decide) (by decide) (by decide) (by decide) (by decide)).2.2 [2, 0] (by decide)).2.2,
+   concat_axis0_sorted cA [cC] (by decide) (by decide) (by decide)
+     (by intro y hy; simp only [List.mem_cons, List.not_mem_nil, or_false] at hy
+         rcases hy with rfl | rfl <;> simp [SortedLin, lin, cA, cC, ravel, prod])⟩
+
+def cD : COO Int := { shape := [2, 2], entries := [([1, 1], 8)], fill := 0 }
+
+/-- stack along the last position (sorted path): `[1, 1, 1]` is element `[1, 1]` of member 1 -/
+example : (stackCore cA [cD] 2).get (insertAt [1, 1] 2 1) = cD.get [1, 1] :=
+  ((stack_get cA [cD] 2 (by decide) (by decide) (by decide) (by decide) (by decide)).2.2 1 [1, 1]
+    (by decide) (by decide)).2
+
+def cF : COO Int := { shape := [3, 2, 3], entries := [([0, 1, 1], 2), ([2, 0, 1], 6), ([1, 1, 0], 4)], fill := 0 }
+
+/-- diagonal of a 3×2×3 array over axes (2, 0) with offset -1: element `[1, 0]` reads the stored `cF[0, 1, 1]` -/
+example : (cF.diagonalCore (-1) 2 0).shape = [2, 2] ∧
+    (cF.diagonalCore (-1) 2 0).get [1, 0] = cF.get (diagSrc 3 2 0 (-1) [1, 0]) ∧
+    diagSrc 3 2 0 (-1) [1, 0] = [0, 1, 1] :=
+  have h := diagonal_get cF (-1) 2 0 3 (by decide) (by decide) (by decide) (by decide) (by decide) rfl rfl
+  ⟨h.1, (h.2.2 [1, 0] (by decide)).2, by decide⟩
 
 end SparseV.C09
